@@ -30,7 +30,7 @@ pub struct Rec {
 
 impl Rec {
     fn id(&self) -> &str {
-        self.header.split_whitespace().next().unwrap_or("")
+        self.header.split(|c: char| c.is_whitespace()).next().unwrap_or("")
     }
 }
 
@@ -207,6 +207,9 @@ fn c06_read(ctx: &mut Ctx, recs: &[Rec], ser: Ser, container: &str, bytes: &[u8]
     } else {
         std::fs::write(&path, bytes).expect("write input");
     }
+    if case_no % 2 == 0 {
+        crate::vecs::side_cars(&path);
+    }
     ctx.journal.note(|| format!("C06 {:?} ser={} container={} argv={:?}", recs, ser.code(), container, argv));
     ctx.rep.evaluations += 1;
     let size = bytes.len();
@@ -331,6 +334,10 @@ fn rec_variants() -> Vec<Rec> {
                 bases: b.to_vec(),
             });
         }
+    }
+    // a header line that starts with a blank: no id, but a description (with and without bases)
+    for b in [&b""[..], b"CG"] {
+        v.push(Rec { header: " unplaced scaffold".to_string(), bases: b.to_vec() });
     }
     v
 }
@@ -482,7 +489,7 @@ fn container_bytes(text: &[u8], bounds: &[usize], cont: &str) -> Vec<u8> {
     panic!("unknown container {}", cont)
 }
 
-fn long_bases(len: usize, salt: usize) -> Vec<u8> {
+pub fn long_bases(len: usize, salt: usize) -> Vec<u8> {
     (0..len).map(|i| b"ACGTTGCANA"[(i * 7 + i / 10 + salt) % 10]).collect()
 }
 
@@ -975,6 +982,27 @@ pub fn c07_configs(ctx: &mut Ctx) {
             }
         }
     }
+    // every number of distinct k-mers in a contiguous range (one record of d + k - 1 random bases, k = 21): a table
+    // that is rendered or merged in blocks goes wrong at a count that is a multiple of the block, whatever the block is
+    if !ctx.monitor() {
+        let mut text = crate::iters::long_input(60_000, 4711);
+        text.iter_mut().for_each(|b| {
+            if !b"ACGT".contains(b) {
+                *b = b'A'
+            }
+        });
+        let dmax = ctx.pick(1_500usize, 50_000);
+        let mut nd = 0u64;
+        for d in 1..=dmax {
+            if !sh.mine() {
+                continue;
+            }
+            let recs = vec![text[..d + 20].to_vec()];
+            c07_run(ctx, &recs, 21, if d % 5 == 0 { 3 } else { 1 }, 6.0, d % 2 == 0, true, "distinct-sweep");
+            nd += 1;
+        }
+        ctx.rep.count("cases.distinct_count_sweep", nd);
+    }
     if ctx.shard.is_first() {
         ctx.rep.sample("records [\"ACA\",\"CAC\"] k=2 threads=4 memory=1e-8 GB (base limit 1, ~dozen partitions), numeric output, merge(false)".to_string());
         ctx.rep.sample("64 x \"AAAAAAAAAA\" k=4 threads=16 memory=2e-8".to_string());
@@ -1456,7 +1484,7 @@ pub fn c08(ctx: &mut Ctx) {
     {
         let pick: Vec<Vec<Vec<u8>>> = vec![vec![b"ACA".to_vec(), b"CAN".to_vec()], vec![b"AAAA".to_vec()], vec![b"".to_vec(), b"ACGTAC".to_vec(), b"acgu".to_vec()]];
         for l in &pick {
-            for delim in [",", "\t", "::"] {
+            for delim in [",", "\t", "::", "\u{b7}"] {
                 for norm in [true, false] {
                     for use_alt in [false, true] {
                         for &(threads, mem) in &cfgs {
